@@ -135,7 +135,8 @@ def bounded(tier, seed):
                     elif len(samples) < 3 and n == 3 and len(chunks) == 3:
                         samples.append({"parts": n, "field_bytes": fb, "max_parts": max_parts, "max_mem": max_mem})
     sizes = [1024, 100000] if tier == "quick" else [1024, 100000, 1 << 20]
-    for lead in (b"", b"\r", b"\n", b"ab\r", b"\r\n-"):
+    # (leads that contain the text '--bnd' in the middle of a line: it is content, not a delimiter, and must not stop the flow)
+    for lead in (b"", b"\r", b"\n", b"ab\r", b"\r\n-", b"x--bndz", b"--bnd", b"a--bnd--b"):
         for n in sizes:
             for chunk in (64, 4096):
                 evals += 1
@@ -157,6 +158,6 @@ def bounded(tier, seed):
             "rule": "five forms (0..3 parts, fields and files) x max_form_parts in {n-1, n, n+1} x max_form_memory_size in {B-1, B, B+1, "
                     "None} x chunkings (one chunk, byte-at-a-time, empty chunks, seeded 2-cut ones) through the sync and the async "
                     "helper; buffer monitor: after every next_event len(buffer) <= chunk + len(boundary) + 8 for file parts that "
-                    "start with '', CR, LF, 'ab\\\\r', CRLF- followed by 1 KiB .. 1 MiB without a line break, and for raw bodies with long padding "
+                    "start with '', CR, LF, 'ab\\\\r', CRLF-, or with the text '--bnd' inside a line, followed by 1 KiB .. 1 MiB without a line break, and for raw bodies with long padding "
                     "after a delimiter, a long header block, a long preamble, a long epilogue",
             "exhaustive": False}
